@@ -1,3 +1,4 @@
+import RossModel.Lemmas.Calls
 import RossModel.Lemmas.SerialEnd
 import RossModel.Lemmas.Resync
 import RossModel.Lemmas.Run
@@ -64,5 +65,30 @@ theorem C06_usart_never_blocked (junk : List (List UInt8)) (hj : ∀ x ∈ junk,
     Out.blocked ∉ usartPolls LinkSt.init s := by
   obtain ⟨outsJ, outs, h, _, _⟩ := Ross.usart_resync junk hj a b ha hb s hs
   exact no_blocked_of_emitsOf _ _ h
+
+/-- no look-ahead (both byte links; `step` is `usartStep` or `serialStep`): the calls that return while a script `s` is
+being consumed — results, states, and the device items unread at each return — are the same whatever follows `s`
+(the unread counts grow by the length of what follows), and consumption then resumes from the state reached -/
+theorem C06_no_lookahead (step : LinkSt → ByteItem → LinkSt × Option Out) (st : LinkSt) (s t : List ByteItem) :
+    byteCalls step st (s ++ t) =
+      (shiftLeft t.length (byteCalls step st s).1 ++ (byteCalls step (byteCalls step st s).2 t).1,
+       (byteCalls step (byteCalls step st s).2 t).2) :=
+  Ross.byteCalls_append step st s t
+
+/-- hence every call returning while `s` is consumed leaves everything behind `s` — e.g. all bytes of the following
+packets — queued on the device -/
+theorem C06_following_stay_queued (step : LinkSt → ByteItem → LinkSt × Option Out) (st : LinkSt) (s t : List ByteItem) :
+    ∃ rest, (byteCalls step st (s ++ t)).1 = shiftLeft t.length (byteCalls step st s).1 ++ rest ∧
+      ∀ x ∈ shiftLeft t.length (byteCalls step st s).1, t.length ≤ x.2.1 :=
+  Ross.byteCalls_prefix step st s t
+
+/-- the per-call trace that the correspondence check compares with the real receiver (results and `@items left`) is
+this list of returning calls plus the final call on the exhausted script -/
+theorem C06_trace_is_calls (step : LinkSt → ByteItem → LinkSt × Option Out) (st : LinkSt) (s : List ByteItem) :
+    bytePollsSt step st s =
+      (match (byteCalls step st s).1.getLast? with
+        | some (.nothing, 0, _) => (byteCalls step st s).1
+        | _ => (byteCalls step st s).1 ++ [endEntry (byteCalls step st s).2]) :=
+  Ross.bytePollsSt_eq_calls step st s
 
 end Ross.Props
